@@ -234,7 +234,7 @@ def gen_plan(rng, tier, index, config=None):
         if r.chance(p_lock):
             how = r.weighted([("back", 5), ("index", 3), ("full", 1), ("zero", 1)])
             if how == "back":
-                steps.append({"op": "lock", "bc": bc, "back": r.pick([0, 1, 1, 2, 3, 6])})
+                steps.append({"op": "lock", "bc": bc, "back": r.pick([0, 0, 1, 1, 1, 2, 3, 6])})
             elif how == "index":
                 steps.append({"op": "lock", "bc": bc, "index": r.between(0, n)})
             elif how == "full":
@@ -410,7 +410,9 @@ def execute(plan, ctx):
             cb_owner[st["cb"]] = st["bc"]
             inst.sut.add_change_callback(cb)
         elif op == "deliver":
-            ctx.vtime = max(ctx.vtime, min(st.get("t", 0.0), 1e5))
+            t = st.get("t", 0.0)
+            if t < 1e5:
+                ctx.vtime = max(ctx.vtime, t)
             _deliver(ctx, ids, inst, st)
         elif op == "lock":
             _lock(ctx, ids, inst, st)
